@@ -776,10 +776,15 @@ func (c *configuration) write(tlsMgr *tlsManager) (err error) {
 	}
 
 	if globalContext.filters != nil {
-		globalContext.filters.WriteDiskConfig(config.Filtering)
-		config.Filters = config.Filtering.Filters
-		config.WhitelistFilters = config.Filtering.WhitelistFilters
-		config.UserRules = config.Filtering.UserRules
+		// Write into a new object and not into the current config.Filtering,
+		// since that may be the configuration the filter itself works with,
+		// see [initDNS], which must not be read without the filter's locks.
+		fltConf := &filtering.Config{}
+		globalContext.filters.WriteDiskConfig(fltConf)
+		config.Filtering = fltConf
+		config.Filters = fltConf.Filters
+		config.WhitelistFilters = fltConf.WhitelistFilters
+		config.UserRules = fltConf.UserRules
 	}
 
 	if s := globalContext.dnsServer; s != nil {
